@@ -7,7 +7,7 @@ class MatrixOfCellIdentifiersToken(RegexpBaseToken):
     # TODO Consider the possibility of a matrix like A:A
     # a quoted sheet title runs to the closing apostrophe (apostrophes inside it are doubled), so it can
     # contain ! and cannot run on into the quoted title of a later reference
-    regexp = r'((\'((?:[^\']|\'\')*)\'|(\w*?))!)?\$?([A-Z]+)(\$?(\d+))?:\$?([A-Z]+)(\$?(\d+))?'
+    regexp = r'((\'((?:[^\']|\'\')+)\'|(\w+?))!)?\$?([A-Z]+)(\$?(\d+))?:\$?([A-Z]+)(\$?(\d+))?'
     last_match_regexp = r'([^\d].*)?'
     value_range = [0, -1]
 
@@ -31,7 +31,7 @@ class MatrixOfCellIdentifiersToken(RegexpBaseToken):
 
 
 class CellIdentifierRangeToken(RegexpBaseToken):
-    regexp = r'((\'((?:[^\']|\'\')*)\'|(\w*?))!)?((\$?([A-Z]+)(\$?(\d+))?:\$?\8(\$?(\d+))?)|(\$?([A-Z]+)(\$?(\d+))?:\$?([A-Z]+)(\$?\15)?))'
+    regexp = r'((\'((?:[^\']|\'\')+)\'|(\w+?))!)?((\$?([A-Z]+)(\$?(\d+))?:\$?\8(\$?(\d+))?)|(\$?([A-Z]+)(\$?(\d+))?:\$?([A-Z]+)(\$?\15)?))'
     last_match_regexp = r'([^\d$].*)?'
     value_range = [0, -1]
 
@@ -53,7 +53,7 @@ class CellIdentifierRangeToken(RegexpBaseToken):
 
 
 class CellIdentifierToken(RegexpBaseToken):
-    regexp = r'((\'((?:[^\']|\'\')*)\'|(\w*?))!)?\$?([A-Z]+)\$?(\d+)'
+    regexp = r'((\'((?:[^\']|\'\')+)\'|(\w+?))!)?\$?([A-Z]+)\$?(\d+)'
     last_match_regexp = r'([^\d]|[^:\d].*)?'
     value_range = [0, -1]
 
